@@ -28,7 +28,9 @@ META = dict(
           "axis; variable-covariance Gaussian real / complex, both use_full_fisher) on 1-6 data pixels x "
           "composition (natural parameters, scaled c.E, E @ model with generated linear + pointwise models "
           "into the support, sums of 2 energies named / unnamed, StandardHamiltonian with and without "
-          "ic_samp, AveragedEnergy) x 8 parameter points in the interior of the support. "
+          "ic_samp, AveragedEnergy, and the energies obtained by simplify_for_constant_input of a "
+          "VariableCovarianceGaussianEnergy / a StandardHamiltonian around it with the residual key or the "
+          "inverse-covariance key held constant) x 8 parameter points in the interior of the support. "
           "non-trivial: non-scalar data space and (composed / summed / scaled energy or non-identity "
           "covariance); distinct = descriptor"),
     assumptions=["InverseGammaEnergy: value is the negative log-pdf *of x* (scipy invgamma, alpha > 0) and, at the "
@@ -42,8 +44,12 @@ META = dict(
                  "(exact sums) and Gaussian (linearity in the residual)",
                  "AveragedEnergy is judged by the composition rules (mean of values / gradients / metrics); its "
                  "get_transformation is judged by the pull-back identity as for every energy that provides one",
+                 "specialised energies (simplify_for_constant_input): the result is a sum with a constant summand "
+                 "that offers no transformation; the summands are reached through the sum's _ops list and each "
+                 "summand's pull-back is compared with its own metric and with the Fisher information",
                  "tolerance 1e-9 norm-wise; Poisson sums are truncated where the tail mass is < 1e-15"],
     need=["value_constancy_checks", "gradient_checks", "metric_vs_fisher", "pullback_checks",
+          "specialised_energy_cases", "specialised_pullback_checks",
           "metric_at_checks", "library_score_expectations", "vcge_transformation_expectations",
           "composition_checks"],
     quick=dict(cases=360, workers=6, budget_s=80),
@@ -698,12 +704,16 @@ def case(ck, i):
     ift = ck.state["ift"]
     rng = ck.rng()
     comp = str(rng.choice(["natural", "natural", "scaled", "model", "model", "model_scaled", "sum", "sum",
-                           "hamiltonian", "averaged"]))
+                           "hamiltonian", "averaged", "specialised", "specialised"]))
     famcls = FAMILIES[int(rng.integers(0, len(FAMILIES)))]
     if i < len(FAMSET):
         # the first cases walk through every family in natural parameters (so that every deciding
         # monitor observes something even if the budget cuts the run short)
         famcls, comp = FAMSET[i], "natural"
+    elif i < len(FAMSET) + 8:
+        comp = "specialised"
+    if comp == "specialised":
+        famcls = VCGauss
     fam = famcls(ck, rng)
     if comp != "natural" and comp != "scaled" and isinstance(fam, Categorical):
         comp = "scaled" if rng.integers(0, 2) else "natural"
@@ -722,6 +732,46 @@ def case(ck, i):
         terms = [Term(fam, None, c)]
         gen = fam.gen
         desc["c"] = c
+    elif comp == "specialised":
+        # likelihood energies reachable through simplify_for_constant_input: one key of a
+        # VariableCovarianceGaussianEnergy (or of a StandardHamiltonian around it) is held constant
+        forced = i - len(FAMSET)
+        which = ["res", "icov"][forced % 2] if 0 <= forced < 8 else str(rng.choice(["res", "res", "icov"]))
+        wrap = (forced % 4 >= 2) if 0 <= forced < 8 else bool(rng.integers(0, 3) == 0)
+        ckey, okey = (fam.kr, fam.ki) if which == "res" else (fam.ki, fam.kr)
+        v0 = fam.gen(rng)
+        full0 = fam.lay.from_vec(v0)
+        cfield = ift.MultiField.from_dict({ckey: full0[ckey]})
+        host = fam.op
+        if wrap:
+            ic = ift.GradientNormController(iteration_limit=5) if rng.integers(0, 2) else None
+            host = ift.StandardHamiltonian(fam.op, ic_samp=ic)
+            extra_prior = 1.0
+            desc["ic_samp"] = ic is not None
+        out, op = host.simplify_for_constant_input(cfield)
+        if out is not None:
+            ck.violation("specialised:unexpected-constant-output", "simplify_for_constant_input of an energy "
+                         "returned a constant output field")
+        lay = cs.Layout(op.domain, {okey: fam.lay.cplx[okey]})
+        sel = fam.ix[okey]
+        Jsel = np.zeros((fam.lay.size, len(sel)))
+        Jsel[sel, np.arange(len(sel))] = 1.0
+
+        def embed(x, v0=v0, sel=sel, Jsel=Jsel):
+            v = v0.copy()
+            v[sel] = x
+            return v, Jsel
+        import copy
+        pfam = copy.copy(fam)
+        pfam.claim_fisher = True      # the specialised energies carry the exact Fisher metric ...
+        pfam.pull = "exact"           # ... and a global transformation
+        terms = [Term(pfam, embed)]
+        if which == "res":
+            gen = lambda r: np.exp(r.uniform(-1, 1, fam.n))
+        else:
+            gen = lambda r: r.standard_normal(len(sel)) * 1.2
+        mech = f"specialised-{which}-constant" + (":StandardHamiltonian" if wrap else "")
+        desc.update(constant=which, wrapped=wrap)
     else:
         pdom, P, pd = gen_param_dom(ift, rng)
         lay = cs.Layout(pdom, False)
@@ -862,6 +912,42 @@ def case(ck, i):
                         viol(f"get-metric-at:{mech}", "get_metric_at differs from J_f^T J_f", rel_dev=dev)
                 except (NotImplementedError, AttributeError):
                     pass
+    # specialised energies are sums with a constant summand (no transformation of the sum): every summand
+    # that provides a transformation must pull the identity back to *its own* metric
+    if comp == "specialised":
+        lhs = op.likelihood_energy if isinstance(op, ift.StandardHamiltonian) else op
+        subs = list(getattr(lhs, "_ops", [lhs]))
+        x = xs[0]
+        pos = lay.from_vec(x)
+        for sub in subs:
+            try:
+                tr = sub.get_transformation()
+            except (NotImplementedError, AttributeError):
+                continue
+            if tr is None:
+                continue
+            dtp, f = tr
+            jac = f(ift.Linearization.make_var(pos)).jac
+            lout = trafo_layout(ift, f.target, dtp, bool(fam.lay.cplx[okey]))
+            Jf = cs.dense_map(lambda v: jac(v), lay, lout)
+            Msub = observe(ift, sub, lay, x)[2]
+            ck.hit("pullback_checks")
+            ck.hit("specialised_pullback_checks")
+            ok, dev = close(Jf.T @ Jf, Msub)
+            if not ok:
+                viol(f"transformation-pullback:{mech}", "J_f^T J_f of the specialised summand's "
+                     "get_transformation() differs from its metric", rel_dev=dev,
+                     got_diag=np.round(np.diagonal(Jf.T @ Jf)[:6], 6).tolist(),
+                     exp_diag=np.round(np.diagonal(Msub)[:6], 6).tolist())
+            # ... and to the Fisher information of the reference distribution
+            Fx = ref_fisher(x) - extra_prior * np.eye(len(x))
+            ok, dev = close(Jf.T @ Jf, Fx)
+            if not ok:
+                viol(f"transformation-vs-fisher:{mech}", "pull-back through the specialised energy's "
+                     "transformation differs from the Fisher information", rel_dev=dev,
+                     got_diag=np.round(np.diagonal(Jf.T @ Jf)[:6], 6).tolist(),
+                     exp_diag=np.round(np.diagonal(Fx)[:6], 6).tolist())
+        ck.hit("specialised_energy_cases")
     # (a) value = -log p up to a theta-independent constant
     ck.hit("value_constancy_checks")
     spread = max(consts) - min(consts)
